@@ -802,6 +802,16 @@ fn gen15(seed: u64, idx: u64, _t: Tier) -> J {
 			}
 		}
 	}
+	if kind != "stdin-twice" && c.stdin.is_none() && r.chance(1, 4) {
+		// One of the healthy inputs arrives on standard input ('-' at any position).
+		let candidates: Vec<usize> = (0..names.len()).filter(|i| Some(*i) != fail_at && c.files.get(*i).is_some_and(|f| f.kind == "file" && f.name == names[*i])).collect();
+		if !candidates.is_empty() {
+			let q = *r.pick(&candidates);
+			c.stdin = Some(c.files[q].bytes.clone());
+			c.stdin_plan = Some(plan_for(&mut r, 4096, true));
+			names[q] = "-".into();
+		}
+	}
 	c.args.extend(names);
 	if r.chance(1, 3) {
 		c.wsched = gen::gen_sched(&mut r, 4096);
@@ -935,15 +945,17 @@ fn gen16(seed: u64, idx: u64, _t: Tier) -> J {
 		let size = if many { r.log_range(200, 60_000) } else { r.log_range(2_000, 300_000) };
 		let (f, bytes) = sized_content(&mut r, to, size);
 		total_guess += bytes.len();
-		if i == 0 && r.chance(1, 3) {
+		if c.stdin.is_none() && r.chance(1, 3) {
+			// Standard input at any position of the input list ('-' before, between or after
+			// file operands). A single input may name its format; in a list -f would apply to
+			// every input, so standard input is left to detection there.
 			c.stdin = Some(bytes);
 			let sr = r.chance(1, 2);
 			c.stdin_plan = Some(plan_for(&mut r, 4096, sr));
-			c.args.extend(fmt_flag(&mut r, 'f', f));
-			if many {
-				// -f applies to every input: keep a single stdin input in that case
+			if !many {
+				c.args.extend(fmt_flag(&mut r, 'f', f));
+			} else {
 				c.args.push("-".into());
-				break;
 			}
 			continue;
 		}
